@@ -24,6 +24,7 @@ type Opts struct {
 	Router     int   `json:"router"`      // 0 polyline, 1 straight, 2 ortho, 3 splines, 4 noop
 	Explicit   bool  `json:"explicit"`    // pass algorithm options even where they equal the default
 	NoOrdering bool  `json:"no_ordering"` // pass WithOrdering(OrderingNoop) (documented no-op phase 3; used by C16 only)
+	Monitor    bool  `json:"monitor"`     // attach a passive recording monitor (supplying one must not change anything)
 	RandomFlag bool  `json:"random_flag"` // with Breaker == 2: also pass WithNonDeterministicGreedyCycleBreaker(), which only concerns the greedy breaker
 
 	HasFixed bool                  `json:"has_fixed"`
@@ -336,6 +337,9 @@ func Run(edges [][]string, o Opts, extra ...autog.Option) (res RunResult) {
 		}
 	}()
 	opts := append(o.Options(), extra...)
+	if o.Monitor {
+		opts = append(opts, autog.WithMonitor(&Recorder{}))
+	}
 	res.Layout = autog.Layout(graph.EdgeSlice(edges), opts...)
 	return res
 }
